@@ -361,6 +361,9 @@ pub fn run(ctx: &Ctx) -> (Stats, Report) {
                 (Kind::Ts, "DD.MM.YYYY".into(), format!("{:02}.{:02}.{:04}", r.d, r.m, r.y), n * US_PER_DAY),
                 (Kind::Ora, "YYYYMMDD HH:MI AM".into(), format!("{:04}{:02}{:02} 11:59 pm", r.y, r.m, r.d), n * US_PER_DAY + pools::hms(23, 59, 0, 0)),
                 (Kind::Ora, "Mon DD YYYY".into(), format!("{} {:02} {:04}", &mon[..3], r.d, r.y), n * US_PER_DAY),
+                (Kind::Date, "YYYY DDD DD".into(), format!("{:04} {:03} {:02}", r.y, r.doy, r.d), n),
+                (Kind::Ts, "DD DDD YYYY".into(), format!("{} {} {}", r.d, r.doy, r.y), n * US_PER_DAY),
+                (Kind::Date, "MM-DDD-YYYY".into(), format!("{:02}-{:03}-{:04}", r.m, r.doy, r.y), n),
             ];
             for (kind, pic, text, want) in cases {
                 st.evaluations += cref.len() as u64;
